@@ -185,8 +185,11 @@ def run_scan(base: Path, spelling, patterns, source):
         (proj / ".codelimit.yml").write_text("exclude:\n" + "".join(f'  - "{p}"\n' for p in cfg))
     if gi:
         (proj / ".gitignore").write_text("\n".join(gi) + "\n")
+    link = base / "link-to-proj"
+    if spelling.startswith("symlink") and not link.exists():
+        os.symlink(str(proj), str(link))
     cwd, arg = {"relative": (proj, Path(".")), "relative-from-parent": (base, Path("proj")), "absolute": (base, proj),
-                "dotdot": (base, Path("proj") / "src" / "..")}[spelling]
+                "dotdot": (base, Path("proj") / "src" / ".."), "symlink-relative": (base, Path("link-to-proj")), "symlink-absolute": (base, link)}[spelling]
     seen = []
     real = Scanner._analyze_file
 
@@ -331,7 +334,7 @@ def run(ctx: core.Ctx):
     else:
         lists += [["pkg", "*.js"], ["src/*", "a.py"], ["src/", "pkg/*"]]
     lists += NEGATION_LISTS
-    spellings = ctx.pick(["relative", "absolute"], ["relative", "relative-from-parent", "absolute", "dotdot"])
+    spellings = ctx.pick(["relative", "absolute", "symlink-relative"], ["relative", "relative-from-parent", "absolute", "dotdot", "symlink-relative", "symlink-absolute"])
     combos = []
     for pats in lists:
         for source in ("config", "option", "gitignore"):
